@@ -869,9 +869,13 @@ func (c03Checker) Run(tp *Tapes, opt RunOpt) *Outcome {
 			if bannedLazy == "" {
 				bannedLazy = inSet(m.filts, src.LazyFilts)
 			}
-			if src.Use.Target == "random" && !src.Use.Control && bannedMain == "" && bannedLazy == "" {
+			if src.Use.Target == "random" && !src.Use.Control {
 				// documented to depend on randomness: keep its output out of the log and the comparison
-				for _, r := range []*c03Res{res, tres} {
+				rs := []*c03Res{tres}
+				if bannedMain == "" && bannedLazy == "" {
+					rs = append(rs, res)
+				}
+				for _, r := range rs {
 					if r.Created {
 						r.Out, r.ExecErr, r.Gets = "(random)", "", nil
 					}
